@@ -474,11 +474,90 @@ def _safe_cor(m, ell):
     return cor
 
 
+MIDBAND = (0.9, 3.5)      # k*len band on which the hankel default is accurate to ~3e-3*peak (measured, see summary)
+
+
+def _pair_check(m, cls, d, case, ks_rel, viol, worst, prefix="", skip_known=False):
+    """spectral_density of the model object `m` (class `cls`, CURRENT dimension `d`) against the radial Fourier
+    quadrature of its CURRENT `correlation`.  `prefix` is put in front of the violation keys (models that were
+    modified in place report under `history:`); `skip_known` leaves out the branches that carry a known finding
+    of the pristine tree (their keys are matched by known_findings.json for freshly built models only).
+    Returns the number of evaluations."""
+    ev = 0
+    ell = m.len_rescaled
+    sup = ell if cls in COMPACT else None
+    with warnings.catch_warnings(), np.errstate(all="ignore"):
+        warnings.simplefilter("ignore")
+        if cls == "JBessel":
+            # non-decaying correlation: test the pair through the inverse transform of the compact spectrum
+            beta = m.nu - d / 2
+            if beta < -0.6:
+                return 0
+            for rr in (0.0, 0.7, 2.0, 5.5, 13.0):
+                r = rr * ell
+                want = float(m.correlation(np.array([r]))[0])
+                got = inverse_ft_compact(m.spectral_density, d, max(r, 1e-9 * ell), 1.0 / ell, beta)
+                ev += 1
+                tol = 1e-6 if beta >= 0 else 2e-4
+                worst["analytic"] = max(worst["analytic"], abs(got - want)) if beta >= 0 else worst["analytic"]
+                if not abs(got - want) <= tol:
+                    import scipy.special as sps
+                    cut = sps.gamma(m.nu - d / 2 + 1) > 100.0
+                    viol.append({"key": prefix + ("spectrum:JBessel-gamma-cut" if cut else "spectrum:JBessel"),
+                                 "what": ("JBessel nu > d/2+4.89: the divisor min(gamma(nu-d/2+1), 100) is cut, the density "
+                                          "is gamma(nu-d/2+1)/100 times the transform of the correlation") if cut else
+                                 "inverse transform of the reported density differs from correlation",
+                                 "case": dict(case, r=r, correlation=want, from_density=got)})
+            return ev
+        if skip_known and cls == "Matern" and m.nu > 20.0:
+            return 0
+        ks = np.asarray(ks_rel) / ell
+        code = np.asarray(m.spectral_density(ks), dtype=float)
+        cor = _safe_cor(m, ell)
+        ref = np.array([radial_ft(cor, d, k, ell, sup) for k in ks])
+        # peak of the true density: value at the origin where the correlation is integrable
+        slow = cls in ("TPLGaussian", "TPLExponential", "TPLStable") or (cls == "Rational")
+        peak = np.max(np.abs(ref)) if slow else max(np.max(np.abs(ref)), abs(density_at_zero(cor, d, ell, sup)))
+        valid_dim = bool(m.check_dim(d))
+    ev += len(ks)
+    for k, c, q in zip(ks, code, ref):
+        err = abs(c - q)
+        cc = dict(case, k=float(k), k_len=float(k * ell), reported=float(c), transform_of_correlation=float(q))
+        if cls in ANALYTIC:
+            if cls == "Matern" and m.nu > 20.0:
+                if not err <= 1e-6 * abs(q) + 1e-10 * peak:
+                    viol.append({"key": prefix + "spectrum:Matern-nu>20", "what": "Matern nu>20: cor is the Gaussian limit but "
+                                 "the density is a 'corrected' Gaussian that is not its transform", "case": cc})
+                continue
+            if cls == "TPLGaussian" and _tpl_gau_approx(m, k):
+                worst["tpl-gauss-approx"] = max(worst["tpl-gauss-approx"], err / abs(q))
+                if not err <= 5e-3 * abs(q):
+                    viol.append({"key": prefix + "spectrum:TPLGaussian:first-order-region", "what": "density differs from the "
+                                 "transform by more than the documented first-order approximation", "case": cc})
+                continue
+            worst["analytic"] = max(worst["analytic"], err / (abs(q) + 1e-4 * peak))
+            if not err <= 1e-6 * abs(q) + 1e-10 * peak:
+                viol.append({"key": prefix + f"spectrum:{cls}", "what": "analytic spectral density is not the Fourier "
+                             "transform of the correlation (1e-6 relative)", "case": cc})
+        else:
+            worst["default"] = max(worst["default"], err / peak)
+            if not err <= 0.15 * peak:
+                viol.append({"key": prefix + f"spectrum:hankel-default:{cls}", "what": "numerical default density differs from "
+                             "the transform of the correlation by more than 0.15*peak", "case": cc})
+            elif valid_dim and MIDBAND[0] <= k * ell <= MIDBAND[1]:
+                worst["default-midband"] = max(worst.get("default-midband", 0.0), err / peak)
+                if not err <= 0.02 * peak:
+                    viol.append({"key": prefix + f"spectrum:hankel-default-midband:{cls}", "what": "numerical default density "
+                                 "differs from the transform of the correlation by more than 0.02*peak on 0.9 <= k*len <= 3.5 "
+                                 "(where the hankel default is accurate to 3e-3*peak)", "case": cc})
+    return ev
+
+
 def fourier_pair_search(ctx, n_random, ks_rel, viol):
     """A: density vs radial Fourier quadrature of `correlation`"""
     rng = np.random.RandomState(ctx.seed + 40)
     ev = 0
-    worst = {"analytic": 0.0, "default": 0.0, "tpl-gauss-approx": 0.0}
+    worst = {"analytic": 0.0, "default": 0.0, "default-midband": 0.0, "tpl-gauss-approx": 0.0}
     for cls in CLASSES:
         for d in (1, 2, 3):
             for kw in _configs(rng, cls, d, n_random):
@@ -488,64 +567,7 @@ def fourier_pair_search(ctx, n_random, ks_rel, viol):
                     viol.append({"key": f"spectrum:{cls}:constructor", "what": f"{type(e).__name__}: {e}",
                                  "case": dict(cls=cls, dim=d, kw=_jsonable(kw))})
                     continue
-                ell = m.len_rescaled
-                case = dict(cls=cls, dim=d, kw=_jsonable(kw))
-                sup = ell if cls in COMPACT else None
-                with warnings.catch_warnings(), np.errstate(all="ignore"):
-                    warnings.simplefilter("ignore")
-                    if cls == "JBessel":
-                        # non-decaying correlation: test the pair through the inverse transform of the compact spectrum
-                        beta = m.nu - d / 2
-                        if beta < -0.6:
-                            continue
-                        for rr in (0.0, 0.7, 2.0, 5.5, 13.0):
-                            r = rr * ell
-                            want = float(m.correlation(np.array([r]))[0])
-                            got = inverse_ft_compact(m.spectral_density, d, max(r, 1e-9 * ell), 1.0 / ell, beta)
-                            ev += 1
-                            tol = 1e-6 if beta >= 0 else 2e-4
-                            worst["analytic"] = max(worst["analytic"], abs(got - want)) if beta >= 0 else worst["analytic"]
-                            if not abs(got - want) <= tol:
-                                import scipy.special as sps
-                                cut = sps.gamma(m.nu - d / 2 + 1) > 100.0
-                                viol.append({"key": "spectrum:JBessel-gamma-cut" if cut else "spectrum:JBessel",
-                                             "what": ("JBessel nu > d/2+4.89: the divisor min(gamma(nu-d/2+1), 100) is cut, the density "
-                                                      "is gamma(nu-d/2+1)/100 times the transform of the correlation") if cut else
-                                             "inverse transform of the reported density differs from correlation",
-                                             "case": dict(case, r=r, correlation=want, from_density=got)})
-                        continue
-                    ks = np.asarray(ks_rel) / ell
-                    code = np.asarray(m.spectral_density(ks), dtype=float)
-                    cor = _safe_cor(m, ell)
-                    ref = np.array([radial_ft(cor, d, k, ell, sup) for k in ks])
-                    # peak of the true density: value at the origin where the correlation is integrable
-                    slow = cls in ("TPLGaussian", "TPLExponential", "TPLStable") or (cls == "Rational")
-                    peak = np.max(np.abs(ref)) if slow else max(np.max(np.abs(ref)), abs(density_at_zero(cor, d, ell, sup)))
-                ev += len(ks)
-                for k, c, q in zip(ks, code, ref):
-                    err = abs(c - q)
-                    cc = dict(case, k=float(k), k_len=float(k * ell), reported=float(c), transform_of_correlation=float(q))
-                    if cls in ANALYTIC:
-                        if cls == "Matern" and m.nu > 20.0:
-                            if not err <= 1e-6 * abs(q) + 1e-10 * peak:
-                                viol.append({"key": "spectrum:Matern-nu>20", "what": "Matern nu>20: cor is the Gaussian limit but "
-                                             "the density is a 'corrected' Gaussian that is not its transform", "case": cc})
-                            continue
-                        if cls == "TPLGaussian" and _tpl_gau_approx(m, k):
-                            worst["tpl-gauss-approx"] = max(worst["tpl-gauss-approx"], err / abs(q))
-                            if not err <= 5e-3 * abs(q):
-                                viol.append({"key": "spectrum:TPLGaussian:first-order-region", "what": "density differs from the "
-                                             "transform by more than the documented first-order approximation", "case": cc})
-                            continue
-                        worst["analytic"] = max(worst["analytic"], err / (abs(q) + 1e-4 * peak))
-                        if not err <= 1e-6 * abs(q) + 1e-10 * peak:
-                            viol.append({"key": f"spectrum:{cls}", "what": "analytic spectral density is not the Fourier "
-                                         "transform of the correlation (1e-6 relative)", "case": cc})
-                    else:
-                        worst["default"] = max(worst["default"], err / peak)
-                        if not err <= 0.15 * peak:
-                            viol.append({"key": f"spectrum:hankel-default:{cls}", "what": "numerical default density differs from "
-                                         "the transform of the correlation by more than 0.15*peak", "case": cc})
+                ev += _pair_check(m, cls, d, dict(cls=cls, dim=d, kw=_jsonable(kw)), ks_rel, viol, worst)
     return ev, worst
 
 
